@@ -2151,8 +2151,9 @@ class TargetRegistry:
             raise TypeError(f'expected auto_func to be callable, not: {auto_func!r}')
 
         # determine support for any previously known types
-        known_types = set(sum([list(m.keys()) for m
-                               in self._op_type_map.values()], []))
+        # (in registration order: the type tree built below is order-sensitive)
+        known_types = list(OrderedDict.fromkeys(
+            sum([list(m.keys()) for m in self._op_type_map.values()], [])))
         type_map = self._op_type_map.get(op_name, OrderedDict())
         type_tree = self._op_type_tree.get(op_name, OrderedDict())
         for t in sorted(known_types, key=lambda t: t.__name__):
